@@ -170,18 +170,26 @@ inductive EnvOk : Env → Ctx → Prop
   | cons {x v τ env Γ} : HasShape v τ → EnvOk env Γ → EnvOk ((x, v) :: env) ((x, τ) :: Γ)
 end
 
-/-- What the REAL checker accepts beyond `HasType` (defect D17). check/src/typecheck.rs:1016-1033:
-    when a record literal is checked against an expected record type, the field names are
-    compared as a *set* (`FnvSet`); if the sets agree the subsumption against the expected type is
-    skipped (`expected_type.take()`, "No need to do subsumption checking …") and with it the
-    order-sensitive comparison of closed rows (check/src/unify_type.rs:500-513, "HACK For non
-    polymorphic records we need to care about field order"). The literal then gets the EXPECTED
-    type although the compiler lays it out in source order. In the positional model: a record
-    literal may be given any permutation of its own type. -/
+/-- What the REAL checker accepts for a record literal that is checked against an expected record
+    type (check/src/typecheck.rs:1016-1043, as of /repo commit ebc4408). The literal's field names
+    are compared with the expected type's as a set (`expected_fields_matches`) AND in sequence
+    (`expected_order_matches`); only when both agree is the subsumption against the expected type
+    skipped (`expected_type.take()`) and the literal given the expected type. In the positional
+    model: the expected type must list the literal's own field types in the literal's own order.
+    (With any other order the subsumption runs and the order-sensitive comparison of closed rows,
+    check/src/unify_type.rs:500-513, rejects.) -/
 inductive AcceptsReal : Ctx → Expr → STy → Prop
   | sound {Γ e τ} : HasType D Γ e τ → AcceptsReal Γ e τ
+  | literalExpectedOrder {Γ fields layout σs τs τs'} : HasTypes D Γ fields σs →
+      LayoutOk layout σs [] τs → τs' = τs → AcceptsReal Γ (.record fields none layout) (.recd τs')
+
+/-- The rule BEFORE commit ebc4408 (defect D17): the names were compared as a set only
+    (`FnvSet`), so the literal was given the expected type for ANY permutation of its fields while
+    the compiler lays it out in source order. Kept for the regression theorems. -/
+inductive AcceptsRealOld : Ctx → Expr → STy → Prop
+  | sound {Γ e τ} : HasType D Γ e τ → AcceptsRealOld Γ e τ
   | literalAnyOrder {Γ fields layout σs τs τs'} : HasTypes D Γ fields σs → LayoutOk layout σs [] τs →
-      List.Perm τs τs' → AcceptsReal Γ (.record fields none layout) (.recd τs')
+      List.Perm τs τs' → AcceptsRealOld Γ (.record fields none layout) (.recd τs')
 
 /-- "did not go wrong, and a value has the promised shape" -/
 def Safe (r : Res) (τ : STy) : Prop :=
